@@ -26,6 +26,23 @@ func Damage(r *prng.R, p *Prog) ([]byte, string) {
 		return []byte("@"), "insert_byte"
 	}
 	nt := len(p.Toks)
+	if r.Chance(1, 12) {
+		// a character from beyond Latin-1 where a token may start, end or continue: letters and
+		// digits of other scripts, characters whose low byte is an ASCII digit, letter, blank or
+		// operator, characters outside the BMP, the replacement character, a non-character
+		i := r.Intn(len(src) + 1)
+		if nt > 0 && r.Chance(2, 3) {
+			t := p.Toks[r.Intn(nt)]
+			i = prng.Pick(r, []int{t.Start, t.End})
+		}
+		base := prng.Pick(r, []rune{0x100, 0x400, 0x600, 0x900, 0x2000, 0x3000, 0xFF00, 0x10000, 0x1D700, 0xE0000})
+		c := base + rune(r.Intn(256))
+		if r.Chance(1, 8) {
+			c = prng.Pick(r, []rune{0x0131, 0x0660, 0x0966, 0xFF10, 0x1D7CE, 0x2028, 0x2029, 0x200B, 0xFEFF, 0xFFFD, 0xFFFE, 0x10FFFF})
+		}
+		out := append(append(append([]byte(nil), src[:i]...), string(c)...), src[i:]...)
+		return out, "insert_rune"
+	}
 	switch k := r.Weighted(3, 3, 3, 6, 2, 2, 3); {
 	case k == 0:
 		i := r.Intn(len(src))
